@@ -227,14 +227,20 @@ def run_sequence(args):
 
 
 def sequences(tier, seed):
+    """length 0..2 exhaustively; quick: 40 + 30 sampled of length 3 / 4;
+    thorough: length 3 exhaustively + 3000 sampled of length 4."""
     seqs = [()]
     seqs += [(a,) for a in SYMBOLS]
     seqs += list(itertools.product(SYMBOLS, repeat=2))
     rng = random.Random(seed)
-    n3, n4 = (40, 30) if tier == "quick" else (1500, 1500)
-    for n, k in ((n3, 3), (n4, 4)):
-        for _ in range(n):
-            seqs.append(tuple(rng.choice(SYMBOLS) for _ in range(k)))
+    if tier == "quick":
+        for n, k in ((40, 3), (30, 4)):
+            for _ in range(n):
+                seqs.append(tuple(rng.choice(SYMBOLS) for _ in range(k)))
+    else:
+        seqs += list(itertools.product(SYMBOLS, repeat=3))
+        for _ in range(3000):
+            seqs.append(tuple(rng.choice(SYMBOLS) for _ in range(4)))
     return seqs
 
 
@@ -261,7 +267,7 @@ class S(Spec):
     ]
     rule = ("every sequence over 18 behaviour symbols (GET x 5 observation-socket behaviours, split-write GET x 2, GET whose terminator ends at byte 2048, "
             "POST, full close after 0/n bytes, half close after 0/n bytes, 3000 and exactly 2048 bytes without terminator, terminator ending at byte 2049, "
-            "RST after 2 bytes, RST while the response is pending) of length 0..2 exhaustively, length 3 and 4 sampled by seed, each on a fresh exporter "
+            "RST after 2 bytes, RST while the response is pending) of length 0..2 exhaustively (thorough: 0..3), longer ones up to length 4 sampled by seed, each on a fresh exporter "
             "process and followed by a well-formed request; a case class is (sequence, outcomes, final state); only the empty sequence is trivial")
     level = "proof"
 
@@ -430,7 +436,7 @@ def run(tier, seed, replay=None):
         "final_state_histogram": hist,
         "model_impl_disagreements": len(mism),
         "exhaustive": False,
-        "exhaustive_up_to_length": 2,
+        "exhaustive_up_to_length": 2 if tier == "quick" else 3,
     })
     if mism:
         c = mism[0]
